@@ -14,6 +14,7 @@
 #include "uncrustify.h"
 #include "uncrustify_version.h"
 
+#include <algorithm>
 #include <fstream>
 #include <unordered_map>
 
@@ -1144,7 +1145,20 @@ void process_option_line(const std::string &config_line, const char *filename,
    {
       auto vargs = split_args(args[1], filename, is_varg_sep);
 
-      if (vargs.size() == 2)
+      // std::stoi() throws on anything that is not a (small) number
+      const bool numeric = std::all_of(vargs.begin(), vargs.end(), [](const std::string &v) {
+         return(  !v.empty()
+               && v.size() <= 3
+               && v.find_first_not_of("0123456789") == std::string::npos);
+      });
+
+      if (!numeric)
+      {
+         OptionWarning w{ filename };
+         w("%s requires a version number in the form MAJOR.MINOR[.PATCH]",
+           cmd.c_str());
+      }
+      else if (vargs.size() == 2)
       {
          compat_level = option_level(std::stoi(vargs[0]), std::stoi(vargs[1]));
       }
